@@ -281,6 +281,35 @@ def build(tier="quick", seed=0):
         pack.add(Obligation(name, lambda tier, name=name, same=same: prove_paths(name, th_rotation(same), judge_rotation, lambda m_, p: {}, allow_raise=("error",)), replay=lambda w, same=same: {"call": "c17_rotate", "args": {"same_second": same}}, functions=FU,
                             mode="concrete history with a modelled clock"))
 
+    # ------------------------------------------------------------------ the template names the file: consecutive records of one path share it, finer templates are honoured
+    def th_template(template, minutes):
+        def th():
+            fresh_fs()
+            D = desc()
+            w = it.call(st.g["PathTemplateWriter"], [template], {"name": "t"})
+            expected = {}
+            for j, (hh, mm) in enumerate(minutes):
+                g = _dt.datetime(2017, 12, 6, hh, mm, tzinfo=UTC)
+                r = it.call(D, [], {"n": SInt(vs[j % 4]), "s": f"r{j}", "_generated": g})
+                it.call(it.getattr_(w, "write"), [r], {})
+                expected.setdefault(template.format(name="t", record=None, ts=g) if "{record" not in template else template, []).append(f"r{j}")
+            it.call(it.getattr_(w, "close"), [], {})
+            found = {path: [it.unbase(r.attrs["s"]) for r in rd_stream(path)] for path in sorted(it.vfs)}
+            return found, expected, [e for e in it.vfs_events if e[0] in ("rename", "rename-overwrite", "overwrite")]
+        return th
+
+    def judge_template(p):
+        found, expected, events = p.value
+        if events:
+            return False, f"one writer, no pre-existing files, no path revisited: files were renamed / replaced: {[(e[0], e[1]) for e in events]}"
+        return found == expected, f"files on disk {found}, the template names {expected}"
+
+    for label, template, minutes in (("three records of one hour", "/abs/arch/{name}-{ts:%Y%m%dT%H}.records", [(22, 10), (22, 20), (22, 59)]), ("hour template, hours 22 22 23 23", "/abs/arch/{name}-{ts:%Y%m%dT%H}.records", [(22, 10), (22, 20), (23, 1), (23, 2)]),
+                                     ("minute template", "/abs/arch/{name}-{ts:%Y%m%dT%H%M}.records", [(22, 10), (22, 10), (22, 20), (23, 1)]), ("day directory template", "/abs/arch/{ts:%Y/%m/%d}/{name}-{ts:%H%M}.records", [(22, 10), (22, 11)])):
+        name = f"C17.template[{label}]"
+        pack.add(Obligation(name, lambda tier, name=name, template=template, minutes=minutes: prove_paths(name, th_template(template, minutes), judge_template, lambda m_, p: {}, allow_raise=("error",)),
+                            replay=lambda w, template=template, minutes=minutes: {"call": "c17_template", "args": {"template": template.replace("/abs/arch/", ""), "minutes": minutes}}, functions=FU, mode="concrete histories of one writer on an empty directory"))
+
     # ------------------------------------------------------------------ canary / conformance / bounded
     def run_canary(tier):
         def th():
